@@ -35,10 +35,15 @@ for e in kf:
         rows.append(f"| {e['property']} | `{e['kind']}` | `{e['site_pattern'].replace('|', chr(92) + '|')}` | {e['what']} |")
 known_table = "\n".join(rows)
 rev_path = os.path.join(ROOT, "sensitivity_reverts.json")
-rows = ["| re-introduced defect (reverse of fix commit) | status at quick tier | kinds reported |", "|---|---|---|"]
+rows = ["| re-introduced defect (reverse of fix commit) | status at quick tier | kinds reported / note |", "|---|---|---|"]
+notes_path = os.path.join(ROOT, "mutants", "reverts", "notes.json")
+rev_notes = json.load(open(notes_path)) if os.path.exists(notes_path) else {}
 if os.path.exists(rev_path):
     for r in json.load(open(rev_path))["results"]:
-        rows.append(f"| {os.path.basename(r['patch'])[:-6]} | {r['status']} | {', '.join(r.get('kinds', []))} |")
+        nm = os.path.basename(r['patch'])[:-6]
+        kinds = ', '.join(r.get('kinds', [])) or ("regression witness reproduced" if r['status'] == "caught" else "")
+        note = rev_notes.get(nm, "") if r['status'] != "caught" else ""
+        rows.append(f"| {nm} | {r['status']} | {kinds}{note} |")
 reverts_table = "\n".join(rows)
 s = block("FIXED_TABLE", fixed_table, s)
 s = block("KNOWN_TABLE", known_table, s)
